@@ -25,6 +25,8 @@ pub struct World {
     pub regs: BTreeMap<u32, H>,
     pub n: usize,
     pub data: usize,
+    /// called from INSIDE the send closure with the bytes handed to the driver (before `mark_sent`)
+    pub on_send: Option<Box<dyn FnMut(&[u8]) + Send>>,
 }
 
 pub fn parse_cmd(s: &str) -> Command {
@@ -80,13 +82,13 @@ impl World {
         storage.set_counters(fi, pi);
         let (tx, rx, pdu_loop) = storage.split();
         let pdu_loop: &'static PduLoop<'static> = Box::leak(Box::new(pdu_loop));
-        World { storage, tx: Some(tx), rx: Some(rx), pdu_loop, regs: BTreeMap::new(), n, data }
+        World { storage, tx: Some(tx), rx: Some(rx), pdu_loop, regs: BTreeMap::new(), n, data, on_send: None }
     }
 
     /// Another view of the same storage for a further thread (no TX/RX handle; move those over with
     /// `take()` as needed).
     pub fn sibling(&self) -> World {
-        World { storage: self.storage, tx: None, rx: None, pdu_loop: self.pdu_loop, regs: BTreeMap::new(), n: self.n, data: self.data }
+        World { storage: self.storage, tx: None, rx: None, pdu_loop: self.pdu_loop, regs: BTreeMap::new(), n: self.n, data: self.data, on_send: None }
     }
 
     pub fn snapshot(&self) -> String {
@@ -195,14 +197,21 @@ impl World {
                 let Some(H::Sendable(sf)) = self.regs.remove(&reg(1)) else { return "bad-op".into() };
                 let outcome: u32 = f[2].parse().unwrap();
                 let mut seen = Vec::new();
+                let mut on_send = self.on_send.take();
                 let res = sf.send_blocking(|b| {
                     seen = b.to_vec();
+                    if outcome == 0 {
+                        if let Some(cb) = on_send.as_mut() {
+                            cb(b);
+                        }
+                    }
                     match outcome {
                         0 => Ok(b.len()),
                         1 => Ok(b.len().saturating_sub(1)),
                         _ => Err(Error::SendFrame),
                     }
                 });
+                self.on_send = on_send;
                 let tag = match (outcome, &res) {
                     (0, Ok(_)) => "ok",
                     (1, Err(Error::PartialSend { .. })) => "partial",
